@@ -1,5 +1,6 @@
 //! C04 – no lost updates (K2).
 //!
+//! Row sets include "whole fragment + part of the other" ({0,1,2,3}, {2,3,4,5}).
 //! All ordered pairs (quick) and triples over a reduced set alphabet (thorough) of
 //! delete(S) / update(S) / merge_insert(keys S; full = RewriteRows, partial = RewriteColumns) on
 //! stale handles pinned at the base version of L2 (uids 0-2 | 3-5), stable row ids on/off,
@@ -18,6 +19,10 @@ pub fn sets_full() -> Vec<Vec<i32>> {
         vec![3, 4, 5],
         vec![],
         vec![0, 1, 2, 3, 4, 5],
+        // a whole fragment plus part of the other one: the transaction drops fragment X entirely
+        // (removed_fragment_ids) and rewrites only the deletion vector of Y
+        vec![0, 1, 2, 3],
+        vec![2, 3, 4, 5],
     ]
 }
 
@@ -60,7 +65,7 @@ pub fn run(ctx: &Ctx) -> Outcome {
         return out;
     }
 
-    let wall_cap = ctx.tier.pick(40.0, 840.0);
+    let wall_cap = ctx.tier.pick(55.0, 840.0);
     let mut hists: Vec<Hist> = vec![];
     let cfgs: Vec<Cfg> = [false, true]
         .iter()
@@ -70,9 +75,22 @@ pub fn run(ctx: &Ctx) -> Outcome {
         .collect();
     // pairs first (so that the shortest history of a violation key is reported)
     let full = sets_full();
+    // quick: the full 39 x 39 product with the raw verdict (retries 0) in both id modes; with
+    // default retries (re-execution path) the sets {0,1}, {2,3}, {0,1,2,3} on address ids only.
+    // thorough: the full product in all four configurations.
+    let retry_sets = vec![vec![0, 1], vec![2, 3], vec![0, 1, 2, 3]];
     for cfg in &cfgs {
-        for a in alphabet(&full, 0, true) {
-            for b in alphabet(&full, 1, true) {
+        let reduced = ctx.quick() && cfg.retries.is_none();
+        if reduced && cfg.stable {
+            continue;
+        }
+        let (a0, a1) = if reduced {
+            (alphabet(&retry_sets, 0, false), alphabet(&retry_sets, 1, false))
+        } else {
+            (alphabet(&full, 0, true), alphabet(&full, 1, true))
+        };
+        for a in &a0 {
+            for b in &a1 {
                 hists.push(Hist { cfg: cfg.clone(), steps: vec![(0, a.clone()), (1, b.clone())] });
             }
         }
@@ -118,9 +136,9 @@ pub fn run(ctx: &Ctx) -> Outcome {
     out.set(
         "bound_completed",
         if ctx.quick() {
-            "all ordered pairs over 31 ops x {stable ids on/off} x {retries 0, default}"
+            "all ordered pairs over 39 ops x {stable ids on/off} x retries 0; all ordered pairs over 12 ops (sets {0,1},{2,3},{0,1,2,3}) x address ids x default retries"
         } else {
-            "all ordered pairs over 31 ops + all ordered triples over 16 ops, x {stable ids on/off} x {retries 0, default}"
+            "all ordered pairs over 39 ops + all ordered triples over 16 ops, x {stable ids on/off} x {retries 0, default}"
         },
     );
     out.assume("every handle reads the base version (read versions differ from the latest only through the other handles' commits)");
